@@ -78,6 +78,14 @@ def t1(repo, res, canon, pc, logic):
                     (apps[0].value is not None and pc.p(apps[0].value, apps[0].ev.frame).startswith(stored + '.pop('))):
                 ok, why = False, ('handing out an observation pops %d and appends %d: it stays stored (handed out '
                                   'again next step) or is lost' % (len(pops), len(apps)))
+            else:
+                # the observation handed out is the one moved: the popped value itself, or the last
+                # element of the scheduled list right after the append
+                rv = pc.p(rets[-1].value, next(e.frame for e in p.events if e.kind == 'stmt' and e.node is rets[-1]))
+                last = {sched + '[(-1)]', sched + '[-1]', '%s[(len(%s) - 1)]' % (sched, sched), '%s[len(%s) - 1]' % (sched, sched)}
+                if not (rv.startswith(stored + '.pop(') or rv in last):
+                    ok, why = False, ('the observation handed out is %s, not the one moved stored -> scheduled: with two '
+                                      'observations waiting one is processed twice and one never' % short(rv, 60))
         elif pops or apps:
             ok, why = False, 'lists change on a path that hands out nothing'
     (res.ok if ok and n else res.bad)('C04.T1', f, None, 'hand-off moves the observation stored -> scheduled (one pop, one append)',
